@@ -84,6 +84,18 @@ func c15Variants(src string) (base string, vs []c15Variant) {
 		g := 1 + len(base)%(len(ts)-1)
 		vs = append(vs, c15Variant{joinWithGap(ts, g, " --("+strings.Repeat("c", 4090-len(base)%50)+")-- "), "gap:buffer-sized-comment", tokClass(ts[g-1]) + " | " + tokClass(ts[g])})
 	}
+	// a LINE comment (and a blank run) straddling the buffer boundary, its text looking like program text
+	if len(ts) > 2 {
+		g := 1 + (len(base)/3)%(len(ts)-1)
+		prefix := len(gen.JoinWith(ts[:g], " "))
+		for _, boundary := range []int{4096, 8192} {
+			k := boundary - prefix - 7
+			if k > 0 {
+				vs = append(vs, c15Variant{joinWithGap(ts, g, strings.Repeat(" ", k)+"-- next: digit 'x' find all any\n"), "gap:line-comment-across-buffer", tokClass(ts[g-1]) + " | " + tokClass(ts[g])})
+				vs = append(vs, c15Variant{joinWithGap(ts, g, strings.Repeat("\t", k+3)+"\n"), "gap:blank-run-across-buffer", tokClass(ts[g-1]) + " | " + tokClass(ts[g])})
+			}
+		}
+	}
 	// leading / trailing layout
 	vs = append(vs, c15Variant{"\n\t " + base + " \n", "gap:outer-whitespace", "outer"})
 	vs = append(vs, c15Variant{"-- c\n" + base + " --(c)--", "gap:outer-comments", "outer"})
